@@ -8,7 +8,7 @@ latent designs (continuous and two-level) and judges the output with a numpy ora
   * the call returns (a watchdog child process turns a hang into a reported failure),
   * the output has the input's shape and holds only 0 / 1,
   * the solid region and the void region are each a union of brush footprints whose in-domain part lies
-    inside that region (morphological opening with the domain boundary treated as "don't care"),
+    inside that region (morphological opening with placements on the design grid, clipped at the boundary),
   * on a small subset the loop is driven step by step from Python with the real cond/body functions and
     the number of placed touches must grow strictly (the termination measure one would use in a proof).
 """
@@ -18,6 +18,7 @@ from __future__ import annotations
 import itertools
 import json
 import os
+import shutil
 import subprocess
 import sys
 import tempfile
@@ -36,7 +37,8 @@ STUBS = ["equinox.internal.while_loop is replaced by a Python driver calling the
 ASSUMPTIONS = [
     "NOTHING is proved deductively for this property: no loop invariant / termination measure for BrushConstraint2D._generator was discharged",
     "bounded domain: circular brushes of diameter 2, 3, 4, 5 (thorough: also 6, 7), 2-D designs from 5x5 to 8x8 (thorough 12x12, 10x16) on each of the three axis orientations, both background indices, seeded normal latent values and two-level (+-1) designs",
-    "a brush footprint may be centred outside the design as long as it overlaps it (only its in-domain part is constrained), the reading of the property text that demands least",
+    "a brush placement is a footprint centred on a cell of the design grid; it may stick out of the design and only its in-domain part is constrained (footprints centred outside the design are not counted)",
+    "the design is at least as large as the brush array along both in-plane axes (jax.scipy.signal.convolve2d raises or swaps its operands otherwise)",
     "termination is observed (watchdog timeout, strictly growing touch count on a subset), not proved",
 ]
 MIN_OBLIGATIONS = {"quick": 40, "thorough": 40}
@@ -52,8 +54,9 @@ WATCHDOG_S = int(os.environ.get("VERIF_C25_WATCHDOG_S", "600"))
 
 
 def union_of_footprints(region, brush):
-    """True iff every cell of `region` (2-D bool) is covered by a brush footprint (any integer centre, the
-    brush's array centre being the anchor) whose in-domain part lies inside `region`"""
+    """True iff every cell of `region` (2-D bool) is covered by a brush footprint, placed with the brush's
+    array centre on a cell of the design grid (a "brush placement"), whose in-domain part lies inside
+    `region` (the footprint may stick out of the design; only its in-domain part is constrained)"""
     import numpy as np
 
     region = np.asarray(region, dtype=bool)
@@ -63,8 +66,8 @@ def union_of_footprints(region, brush):
     ch, cw = (bh - 1) // 2, (bw - 1) // 2
     offs = [(a - ch, b - cw) for a in range(bh) for b in range(bw) if brush[a, b]]
     covered = np.zeros_like(region)
-    for ci in range(-bh, h + bh):
-        for cj in range(-bw, w + bw):
+    for ci in range(h):
+        for cj in range(w):
             cells = [(ci + a, cj + b) for a, b in offs if 0 <= ci + a < h and 0 <= cj + b < w]
             if cells and all(region[c] for c in cells):
                 for c in cells:
@@ -158,6 +161,8 @@ def run_guarded(groups, timeout_s):
             with open(pprog) as fh:
                 prog = json.load(fh)
         return None, prog
+    finally:
+        shutil.rmtree(tmp, ignore_errors=True)
 
 
 class _PyLoop:
@@ -238,9 +243,11 @@ def _bounded_task(diam, shapes, n_per, seed, stepwise_n):
         import numpy as np
 
         rng = np.random.default_rng([seed, int(diam * 10), 25])
+        bsize = int(np.ceil(diam)) + (1 - int(np.ceil(diam)) % 2)
+        shapes_ = [s for s in shapes if min(s) >= bsize]  # jax convolve2d needs the design >= the brush array
         groups = []
         k = 0
-        for shape in shapes:
+        for shape in shapes_:
             for axis in (0, 1, 2):
                 for bg in (0, 1):
                     k += 1
@@ -276,7 +283,7 @@ def _bounded_task(diam, shapes, n_per, seed, stepwise_n):
             c.bounded("BrushConstraint2D/binary_output_both_phases_unions_of_brush_footprints", bad is None, case=label, witness=None if bad is None else {"diameter": diam, "axis": g["axis"], "bg": g["bg"], "shape": list(shape), "design": bad[0], "why": bad[1]})
         # termination measure on a small subset: real cond/body driven from Python
         for t in range(stepwise_n):
-            shape = shapes[0]
+            shape = shapes_[0]
             d = _designs(rng, shape, 4)[t % 4]
             out, loop, _ = run_stepwise(diam, 2, t % 2, d)
             ok = not loop.stuck
